@@ -1,0 +1,9 @@
+//go:build verif
+
+package chain
+
+import "github.com/LemoFoundationLtd/lemochain-core/chain/consensus"
+
+// VerifEngine exposes the consensus engine of a BlockChain to the verification harness (C03):
+// BlockChain.InsertConfirms drops the engine's error, the harness needs it as an observable.
+func (bc *BlockChain) VerifEngine() *consensus.DPoVP { return bc.engine }
